@@ -196,6 +196,12 @@ def w_align(ctx, rng, i):
             cls = CachedPWA if kind == "PiecewiseAffine" else PythonPWA
             if rng.random() < 0.5:
                 s = ms.PointCloud(s.points)      # PWA triangulates a bare point cloud itself
+            if rng.random() < 0.4:
+                # the target handed over as a mesh with a triangulation of its own (other triangles / other row order)
+                from scipy.spatial import Delaunay
+                own = Delaunay(tg.points).simplices.astype(np.int64)
+                own = own[rng.permutation(len(own))][:, rng.permutation(3)]
+                tg = ms.TriMesh(tg.points, trilist=own)
             t = cls(s, tg)
         # retarget once: the same judges run at the end of set_target
         new = t.target.copy()
@@ -208,7 +214,8 @@ def w_align(ctx, rng, i):
         if okfold:
             t.set_target(new)
         # history: asking for the inverse (as every landmark-carrying image warp does) must leave the alignment intact
-        t.pseudoinverse()
+        inv = t.pseudoinverse()
+        judge_common(ctx, inv, t.target.points.copy(), t.source.points.copy(), "inverse")
         align.judge_family(ctx, t, t.source.points.copy(), t.target.points.copy(), align.SHADOW.get(id(t), (None, {}))[1], "after_pseudoinverse")
         judge_common(ctx, t, t.source.points.copy(), t.target.points.copy(), "after_pseudoinverse")
     else:
@@ -245,8 +252,10 @@ def w_align(ctx, rng, i):
         tgt2 = src @ L2.T + tr2 + (rng.normal(scale=noise, size=src.shape) if noise else 0)
         t.set_target(ms.PointCloud(tgt2))
         t.aligned_source(); t.alignment_error()
-        t.pseudoinverse()
+        inv = t.pseudoinverse()
         align.judge_family(ctx, t, src, tgt2 if isinstance(tgt2, np.ndarray) else np.asarray(tgt2), opts, "after_pseudoinverse")
+        # the inverse is itself an alignment (from the old target to the old source): its own queries are consistent
+        judge_common(ctx, inv, np.asarray(tgt2, dtype=float), src, "inverse")
     ctx.count_case((kind, d, str(sorted(opts.items())), noise, mirrored_target, 0 if n < 6 else 1 if n < 15 else 2), nontrivial=True,
                    sample={"kind": kind, "dims": d, "options": opts, "noise": noise, "n_points": n, "mirrored_target": mirrored_target} if i < 8 else None)
 
